@@ -29,6 +29,21 @@ def fixed_cases_for(tier, styles=(None, "jcl"), step=1):
             lv = 1 + (i + rep) % 4
             out.append({"file": f, "level": lv, "lseed": common.stable_seed(f, lv, rep), "tabs": rep == 2, "style": (None, "jcl", "indent_only")[rep % 3], "conf": None})
     out.extend(option_sweep_cases(tier))
+    out.extend(themed_design_cases(tier))
+    return out
+
+
+def themed_design_cases(tier):
+    """seed-independent: grammar-generated designs under coordinated, project-style configurations (same cases on every run)"""
+    import random
+
+    from harness.gen import configs
+
+    out = []
+    n = 400 if tier == "quick" else 3000
+    for i in range(n):
+        conf = configs.themed_conf(random.Random(50_000 + i))
+        out.append({"file": "design:%d" % (70_000 + i), "level": i % 3, "lseed": common.stable_seed("themed", i), "tabs": False, "style": None, "conf": conf})
     return out
 
 
